@@ -12,7 +12,7 @@ from .core import DAY
 from .calendar_ref import is_bday, ymd
 
 # symbols that are prefixes / near-duplicates of one another, mixed with plain ones
-SYMS = ["AAA", "AAB", "AA", "BBB", "B", "CCC", "DDD", "EEE", "FFF", "GGG"]
+SYMS = ["AAA", "AAB", "AA", "BRK.B", "spy", "CCC", "B", "Eee", "FFF", "GGG"]
 
 
 def r4(x):
@@ -134,6 +134,11 @@ def gen_market(rng, n_assets, day0, n_bdays, adjust=True, faults=(), styles=None
         if late:
             ap.append("late_start")
         assets[sym] = {"rows": rows}
+        if rng.random() < 0.3:
+            # the header names the columns: any order, optional columns may be absent
+            keep = [0, 1, 4, 5] + [i for i in (2, 3, 6) if rng.random() < 0.5]
+            rng.shuffle(keep)
+            assets[sym]["col_order"] = keep
         applied[sym] = ap
     return {"adjust": adjust, "assets": assets, "applied": applied, "int_cells": rng.random() < 0.3}
 
@@ -156,10 +161,16 @@ def date_str(d):
     return "%04d-%02d-%02d" % (y, m, dd)
 
 
-def csv_text(rows):
-    lines = ["Date,Open,High,Low,Close,Adj Close,Volume"]
+COLS = ["Date", "Open", "High", "Low", "Close", "Adj Close", "Volume"]
+
+
+def csv_text(rows, order=None):
+    """order: a permutation / subset of column indexes (Date, Open, Close and Adj Close always present)."""
+    order = order or list(range(7))
+    lines = [",".join(COLS[i] for i in order)]
     for r in rows:
-        lines.append(",".join([date_str(r[0])] + [fmt(x) for x in r[1:]]))
+        cells = [date_str(r[0])] + [fmt(x) for x in r[1:]]
+        lines.append(",".join(cells[i] for i in order))
     return "\n".join(lines) + "\n"
 
 
@@ -172,7 +183,11 @@ def write_market(market, dirpath, only=None):
         if a.get("removed"):
             continue
         with open(os.path.join(dirpath, sym + ".csv"), "w") as f:
-            f.write(csv_text(a["rows"]))
+            f.write(csv_text(a["rows"], a.get("col_order")))
+    for name, rows in sorted((market.get("extra_files") or {}).items()):
+        # another listing next to a universe asset (ABC.L.csv beside ABC.csv): its data belong to nobody
+        with open(os.path.join(dirpath, name + ".csv"), "w") as f:
+            f.write(csv_text(rows))
 
 
 def scratch_dir():
